@@ -191,22 +191,78 @@ func c20Typestate(p *an.Prog, r *an.R) {
 		_, isLit := n.(*ast.FuncLit)
 		return !isLit
 	})
+	// ... or, when the closures were turned into methods of a small struct, a field of type *sema that is
+	// re-assigned somewhere in the package (the scheduler's own semaphores are set once, in its constructor's literal)
+	type tsBody struct {
+		body *ast.BlockStmt
+		name string
+	}
+	var bodies []tsBody
+	if semVar == nil {
+		for _, file := range d.Pkg.Syntax {
+			ast.Inspect(file, func(n ast.Node) bool {
+				as, ok := n.(*ast.AssignStmt)
+				if !ok || as.Tok != token.ASSIGN || len(as.Lhs) != len(as.Rhs) {
+					return true
+				}
+				for _, lh := range as.Lhs {
+					se, ok := ast.Unparen(lh).(*ast.SelectorExpr)
+					if !ok {
+						continue
+					}
+					if fv, ok := info.Uses[se.Sel].(*types.Var); ok && fv.IsField() && fv.Type().String() == "*"+an.Mod+"/search.sema" && semVar == nil {
+						semVar = fv
+					}
+				}
+				return true
+			})
+		}
+		if semVar != nil {
+			for _, file := range d.Pkg.Syntax {
+				for _, dc := range file.Decls {
+					fd, ok := dc.(*ast.FuncDecl)
+					if !ok || fd.Body == nil || !mentionsObj(info, fd.Body, semVar) {
+						continue
+					}
+					fo, _ := info.Defs[fd.Name].(*types.Func)
+					if fo == nil {
+						continue
+					}
+					bodies = append(bodies, tsBody{fd.Body, an.FuncName(fo)})
+					k := 0
+					ast.Inspect(fd.Body, func(n ast.Node) bool {
+						if lit, ok := n.(*ast.FuncLit); ok {
+							k++
+							bodies = append(bodies, tsBody{lit.Body, fmt.Sprintf("%s$%d", an.FuncName(fo), k)})
+						}
+						return true
+					})
+				}
+			}
+		}
+	} else {
+		k := 0
+		ast.Inspect(d.Decl.Body, func(n ast.Node) bool {
+			if lit, ok := n.(*ast.FuncLit); ok {
+				k++
+				bodies = append(bodies, tsBody{lit.Body, fmt.Sprintf("%s$%d", an.FuncName(f), k)})
+			}
+			return true
+		})
+	}
 	if !r.Anchor(semVar != nil, "multiScheduler.Acquire/typestate variable of type *sema") {
 		return
 	}
 	lits := 0
 	releases, sets := 0, 0
-	ast.Inspect(d.Decl.Body, func(n ast.Node) bool {
-		lit, ok := n.(*ast.FuncLit)
-		if !ok {
-			return true
-		}
+	for _, tb := range bodies {
 		lits++
-		g := an.NewG(info, lit.Body)
-		litName := fmt.Sprintf("%s$%d", an.FuncName(f), lits)
+		lit := tb
+		g := an.NewG(info, tb.body)
+		litName := tb.name
 		semNonNil := func(cond ast.Expr, truth bool) bool {
 			be, ok := ast.Unparen(cond).(*ast.BinaryExpr)
-			if !ok || !an.UsesObj(info, be.X, semVar) || !isNilExpr(info, be.Y) {
+			if !ok || !c20IsCell(info, be.X, semVar) || !isNilExpr(info, be.Y) {
 				return false
 			}
 			return (be.Op == token.NEQ) == truth
@@ -217,7 +273,7 @@ func c20Typestate(p *an.Prog, r *an.R) {
 				return nil, false
 			}
 			for i, lh := range as.Lhs {
-				if an.UsesObj(info, lh, semVar) && i < len(as.Rhs) {
+				if c20IsCell(info, lh, semVar) && i < len(as.Rhs) {
 					return as.Rhs[i], true
 				}
 			}
@@ -229,7 +285,7 @@ func c20Typestate(p *an.Prog, r *an.R) {
 				releases++
 				se := ast.Unparen(c.Fun).(*ast.SelectorExpr)
 				key := litName + "/sema.Release"
-				if !an.UsesObj(info, se.X, semVar) {
+				if !c20IsCell(info, se.X, semVar) {
 					r.Bad("C20.R2", key+"/not-on-typestate-variable", c.Pos(), "a slot is released through `"+types.ExprString(se.X)+"` instead of the captured sem: the release is not tied to the slot this process holds (double release admits more than the capacity)")
 					continue
 				}
@@ -275,7 +331,7 @@ func c20Typestate(p *an.Prog, r *an.R) {
 					}
 					// eo must be defined by robj.Acquire(...), or together with robj by an acquire helper
 					def := false
-					ast.Inspect(lit.Body, func(m ast.Node) bool {
+					ast.Inspect(lit.body, func(m ast.Node) bool {
 						as, isA := m.(*ast.AssignStmt)
 						if !isA || len(as.Rhs) != 1 {
 							return true
@@ -305,8 +361,7 @@ func c20Typestate(p *an.Prog, r *an.R) {
 					"sem is set to "+types.ExprString(rhs)+" on a path where "+types.ExprString(rhs)+".Acquire(ctx) did not (yet) succeed: a later Release gives back a slot that was never acquired")
 			}
 		}
-		return true
-	})
+	}
 	r.Floor("C20.R2.closures", 1, lits)
 	r.Floor("C20.R2.release-sites", 1, releases)
 	r.Floor("C20.R2.sem-assignments", 1, sets)
@@ -600,4 +655,24 @@ func c20AcquireHelpers(p *an.Prog) map[*types.Func]bool {
 		}
 	})
 	return out
+}
+
+// c20IsCell: e denotes the typestate cell (the captured local, or <x>.field when the cell is a struct field)
+func c20IsCell(info *types.Info, e ast.Expr, cell types.Object) bool {
+	if an.UsesObj(info, e, cell) {
+		return true
+	}
+	se, ok := ast.Unparen(e).(*ast.SelectorExpr)
+	return ok && cell != nil && info.Uses[se.Sel] == cell
+}
+
+func mentionsObj(info *types.Info, n ast.Node, obj types.Object) bool {
+	found := false
+	ast.Inspect(n, func(m ast.Node) bool {
+		if id, ok := m.(*ast.Ident); ok && obj != nil && info.Uses[id] == obj {
+			found = true
+		}
+		return !found
+	})
+	return found
 }
